@@ -222,13 +222,20 @@ def read_all() -> Dict[str, Any]:
     unops, bad5 = read_ops(src_t, "_known_unary_operators")
     locals_, bad6 = eval_scope(src_f)
     ns = vars(live_module())
-    names: List[str] = []
-    for n in readme + [r["py"] for r in rows if "." not in r["py"]] + [r["py"].split(".")[-1] for r in rows if "." in r["py"]] + locals_ + [
-        k for k in ns if re.fullmatch(r"[A-Za-z_][A-Za-z_0-9]*", k) and not k.startswith("__")
-    ] + [k for k in dir(builtins) if re.fullmatch(r"[A-Za-z_][A-Za-z_0-9]*", k) and not k.startswith("__")]:
-        if n not in names:
-            names.append(n)
-    env = [(n, binding_of(n, locals_, ns)) for n in names]
+    # names whose resolution can matter to a lookup: the documented names, the bare keys and the last
+    # component of the dotted keys; plus everything bound in the scope of the eval (parameters, module
+    # globals, builtins) that has no `__module__` (the resolver raises on those).  For any other name
+    # neither `name` nor `<module>.name` can be a key, whatever it is bound to.
+    interest: List[str] = []
+    for n in readme + [r["py"].split(".")[-1] for r in rows] + locals_ + [k for k in ns if not k.startswith("__")]:
+        if re.fullmatch(r"[A-Za-z_][A-Za-z_0-9]*", n) and n not in interest:
+            interest.append(n)
+    env = [(n, binding_of(n, locals_, ns)) for n in interest]
+    for k in dir(builtins):
+        if re.fullmatch(r"[A-Za-z_][A-Za-z_0-9]*", k) and not k.startswith("__") and k not in interest:
+            b = binding_of(k, locals_, ns)
+            if b[0] == "nomodule":
+                env.append((k, b))
     env = [(n, b) for n, b in env if b[0] != "unbound"]
     return {"rows": rows, "readme": readme, "prio": prio, "binops": binops, "unops": unops, "env": env, "locals": locals_,
             "unrecognised": bad + bad2 + bad3 + bad4 + bad5 + bad6}
